@@ -2,7 +2,7 @@
 # tools/mutcheck.sh <patch.diff> <PID> [<PID> ...]
 # Applies a patch to a scratch copy of /repo (outside /repo and /verif), runs the named checks against it
 # with evidence redirected to the scratch dir, prints the exit code of each, removes the scratch copy.
-P="$1"; shift
+P="$(readlink -f "$1")"; shift
 S=$(mktemp -d /tmp/ujvc-mut.XXXXXX)
 trap 'rm -rf "$S"' EXIT
 mkdir -p "$S/repo" "$S/evid"
